@@ -31,14 +31,15 @@ Definition pout_eqb (a b : pout) : bool :=
   | _, _ => false
   end.
 
-Definition pstep_obs := (pop * pout * wdump)%type.
+Definition pstep_obs := (pop * pout * option wdump)%type.       (* no dump between two requests that were issued concurrently *)
+Definition wdump_ok_opt (w : world) (d : option wdump) : bool := match d with Some d => wdump_ok w d | None => true end.
 
 Fixpoint preplay (w : world) (i : N) (h : list pstep_obs) : option N :=
   match h with
   | [] => None
   | (o, r, d) :: rest =>
       let '(w', r') := pstep w o in
-      if pout_eqb r' r && wdump_ok w' d then preplay w' (i + 1) rest else Some i
+      if pout_eqb r' r && wdump_ok_opt w' d then preplay w' (i + 1) rest else Some i
   end.
 (** the process starts by loading the configuration *)
 Definition world_init (provider : bool) (nodes : list (str * N)) (conf : list json) : world :=
@@ -135,13 +136,13 @@ Definition pout2_eqb (a b : pout2) : bool :=
   | RPool PoolOk, RPool PoolOk | RPool PoolNotEnough, RPool PoolNotEnough | RPool PoolErr, RPool PoolErr => true
   | _, _ => false
   end.
-Definition pstep2_obs := (pop2 * pout2 * wdump)%type.
+Definition pstep2_obs := (pop2 * pout2 * option wdump)%type.
 Fixpoint preplay2 (w : world) (i : N) (h : list pstep2_obs) : option N :=
   match h with
   | [] => None
   | (o, r, d) :: rest =>
       let '(w', r') := pstep2 w o in
-      if pout2_eqb r' r && wdump_ok w' d then preplay2 w' (i + 1) rest else Some i
+      if pout2_eqb r' r && wdump_ok_opt w' d then preplay2 w' (i + 1) rest else Some i
   end.
 Definition chk_phist2 (provider : bool) (nodes : list (str * N)) (conf : list json) (h : list pstep2_obs) : bool :=
   match preplay2 (world_init provider nodes conf) 0 h with None => true | Some _ => false end.
@@ -161,13 +162,13 @@ Definition pstep3 (w : world) (o : pop3) : world * pout2 :=
   | PCrashBind ns name uid node k =>
       match bind_crash w ns name uid node k with Some w' => (w', R1 RErr) | None => (w, R1 RStuck) end
   end.
-Definition pstep3_obs := (pop3 * pout2 * wdump)%type.
+Definition pstep3_obs := (pop3 * pout2 * option wdump)%type.
 Fixpoint preplay3 (w : world) (i : N) (h : list pstep3_obs) : option N :=
   match h with
   | [] => None
   | (o, r, d) :: rest =>
       let '(w', r') := pstep3 w o in
-      if pout2_eqb r' r && wdump_ok w' d then preplay3 w' (i + 1) rest else Some i
+      if pout2_eqb r' r && wdump_ok_opt w' d then preplay3 w' (i + 1) rest else Some i
   end.
 Definition chk_phist3 (provider : bool) (nodes : list (str * N)) (conf : list json) (h : list pstep3_obs) : bool :=
   match preplay3 (world_init provider nodes conf) 0 h with None => true | Some _ => false end.
